@@ -39,12 +39,15 @@ claim('C02',
       'Coq proof (soundness invariant yields(stack)++rest = input; uniqueness from strong completeness) + compiled-parser differential',
       'DESIGN.md §5 C02')
 claim('C03',
-      'Coq theorems (LR/ErrPos.v): a rejection returns the head of the unconsumed input (the original token object, or None at the end), '
-      'the source iterator was pulled exactly consumed+1 times, and no sentence starts with consumed ++ [that token] (lockstep lemma + '
-      'strong completeness). Not proved: that the consumed prefix itself is viable (index not too early); decided per input by Earley / '
-      'canonical LR(1) oracles on compiled parsers with a counting iterator. ' + PER_GRAMMAR,
+      'Coq theorems (LR/ErrPos.v, LR/Viable.v): a rejection returns the head of the unconsumed input (the original token object, or None at the end), '
+      'the source iterator was pulled exactly consumed+1 times, no sentence starts with consumed ++ [that token] (lockstep lemma + strong '
+      'completeness), AND — for grammars in which every right-hand side derives some token sequence — consumed itself is a prefix of a sentence '
+      '(every item of a state is reached from the kernel by finitely many closure steps, so the stack can always be completed): the reported '
+      'index is neither too late nor too early. Proved for every grammar the model of generate accepts (reject_exact; Inv3 from the builder\'s '
+      'bi_reach invariant). Not proved: for grammars with unproductive nonterminals, agreement with a canonical LR(1) parser; decided per input '
+      'by Earley / canonical LR(1) oracles on compiled parsers with a counting iterator. ' + PER_GRAMMAR,
       COMMON_NOTE + 'Peekable/Chain modelled by documented behaviour.',
-      'Coq proof (one-token-lookahead lockstep, fuel monotonicity, completeness) + compiled-parser differential with pull counter',
+      'Coq proof (one-token-lookahead lockstep, fuel monotonicity, completeness, kernel-reachability of items) + compiled-parser differential with pull counter',
       'DESIGN.md §5 C03')
 claim('C04',
       'Coq theorems: the table stage of the model can fail only with a genuine conflict of the automaton it was given, and on success the '
